@@ -46,7 +46,7 @@ MANIFEST = {
 
 
 def plan(tier):
-    t = 300 if tier == "quick" else 2400
+    t = 300 if tier == "quick" else 900
     parts = [f"0:{c},1:{n}" for c in range(5) for n in range(3 if tier == "quick" else 4)]
     if tier == "quick":
         parts = [f"0:{c},1:{n}" for c in range(5) for n in range(2)] + [f"0:{c},1:2,2:{k}" for c in range(5) for k in range(4)]
